@@ -25,7 +25,9 @@ Obl(e) ==
          <<"quiet", e.panic = "">>,
          <<"fork-equals-std", e.fork = e.std>>,
          <<"out-of-range-rejected", ~EcdsaRangeOK(e) => (~e.fork /\ ~e.std)>>,
-         <<"valid-accepted", e.valid => (e.fork /\ e.std)>> >>
+         <<"valid-accepted", e.valid => (e.fork /\ e.std)>>,
+         <<"arguments-unchanged", e.args_same>>,
+         <<"same-verdict-when-repeated", e.fork2 = e.fork>> >>
     [] e.op = "VerifyASN1" -> <<
          <<"quiet", e.panic = "">>,
          <<"fork-equals-std", e.fork = e.std>>,
